@@ -190,6 +190,7 @@ def job_from_obs(ntype, share, with_min, nlen):
         leaves = core.explore(run, pre, cap=200)
     k = 4 * round(2.0 * 4.0)
     conds = []
+    leaf_alts = []
     for li, leaf in enumerate(leaves):
         conds.append(leaf.cond())
         name = f"{tag}:leaf{li}"
@@ -203,30 +204,62 @@ def job_from_obs(ntype, share, with_min, nlen):
         fr, n, ndraws = leaf.value
         # the noise must be expressible with table entries: exists indices (a, b, c) such that ... -- quantified by
         # enumerating the finite index combinations inside one formula
-        alts = []
+        alts = []          # (indices used {table: i}, formula)
         nv = [lift(n[0, j]) for j in range(Fc)]
         npix = T * Fc
         first_pixel_draw = ndraws - npix
         for a in range(nlen):
             if ntype == 'chi2':
-                alts.append(z3.And(*[nv[j] == draw('chisq', 17, first_pixel_draw + j) * lift(means[a]) / k for j in range(Fc)]))
+                alts.append(({'mean': a}, z3.And(*[nv[j] == draw('chisq', 17, first_pixel_draw + j) * lift(means[a]) / k for j in range(Fc)])))
                 continue
             for b in (range(nlen) if not share else [a]):
                 for c in ((range(nlen) if not share else [a]) if with_min else [None]):
-                    cand_means = [lift(means[a])] if share else [lift(means[a]), lift(stds[b])]          # no-share: mean = max(mean entry, std entry)
-                    for mu in cand_means:
+                    cand_means = [('mean', lift(means[a]))] if share else [('mean', lift(means[a])), ('std-as-mean', lift(stds[b]))]          # no-share: mean = max(mean entry, std entry)
+                    for which, mu in cand_means:
                         cond = []
                         for j in range(Fc):
                             g = mu + lift(stds[b]) * draw('normal', 17, first_pixel_draw + j)
                             cond.append(nv[j] == (z3.If(g > lift(mins[c]), g, lift(mins[c])) if with_min else g))
-                        alts.append(z3.And(*cond))
-        dis = [z3.Not(z3.Or(*alts))]
+                        used = {'std': b}
+                        if which == 'mean':
+                            used['mean'] = a
+                        if c is not None:
+                            used['min'] = c
+                        alts.append((used, z3.And(*cond)))
+        leaf_alts.append((base, alts))
+        dis = [z3.Not(z3.Or(*[f for _, f in alts]))]
         for j in range(Fc):
             dis.append(lift(fr.data[0, j]) - lift(D[0, j]) != nv[j])
         r, m = core.check(base + [z3.Or(*dis)], timeout_ms=120000)
         recs.append(q(name, r, alternatives=len(alts)))
         if r == 'sat':
             recs.append(cex(f"C11:from_obs:{'share' if share else 'noshare'}", 'noise sampled from tables is not built from table entries (one common index when shared) / returned != added', pl, name=name))
+    # sampling FROM the table: every entry of every table can be the one that is used (generic, pairwise distinct entries)
+    tabs = {'mean': means, 'std': stds, 'min': mins}
+    generic = []
+    for tb in tabs.values():
+        generic += [lift(tb[i]) != lift(tb[j]) for i in range(nlen) for j in range(i)] + [lift(e) > 0 for e in tb]
+    generic += [lift(x) != lift(y) for x in means for y in stds]
+    generic += [draw('chisq' if ntype == 'chi2' else 'normal', 17, kk) > 1 for kk in range(0, 12)]
+    generic += [draw('normal', 17, kk) != draw('normal', 17, kk2) for kk in range(12) for kk2 in range(kk)]
+    used_tabs = ['mean'] if ntype == 'chi2' else (['mean', 'std'] + (['min'] if with_min else []))
+    for tb in used_tabs:
+        for i in range(nlen):
+            reached = False
+            for base, alts in leaf_alts:
+                others = [f for u, f in alts if u.get(tb) != i]
+                for u, f in alts:
+                    if u.get(tb) == i:
+                        # this entry explains the noise and no combination avoiding it does
+                        r, _ = core.check(base + generic + [f] + [z3.Not(o) for o in others], timeout_ms=60000)
+                        if r == 'sat':
+                            reached = True
+                            break
+                if reached:
+                    break
+            recs.append(q(f"{tag}:entry-selectable:{tb}[{i}]", 'sat' if reached else 'unsat', expect='sat'))
+            if not reached:
+                recs.append(cex('C11:from_obs:entry-never-used', f"entry {i} of the {tb} table (length {nlen}) can never be the one sampled", pl, name=f"{tag}:entry-selectable:{tb}[{i}]"))
     sides = [c for leaf in leaves for c in leaf.side]
     r, _ = core.check(pre + sides + [z3.Not(z3.Or(*conds))])
     recs.append(q(f"{tag}:split-complete", r, leaves=len(leaves)))
@@ -340,26 +373,49 @@ def replay_add_noise(p):
 
 
 def replay_from_obs(p):
+    """real generator: over many seeds the parameters recorded by an empty frame (= the sampled table entries) are
+    table entries, from one common index when shared, and every entry of a short table gets used"""
     import setigen as stg
     rng = np.random.default_rng(0)
-    n = p['nlen']
-    means, stds, mins = rng.uniform(5, 9, n), rng.uniform(0.5, 1.5, n), rng.uniform(1, 4, n)
-    for seed in range(40):
-        fr = stg.Frame(fchans=200, tchans=4, df=2.0, dt=4.0, fch1=4096.0, seed=seed)
-        try:
-            noise = fr.add_noise_from_obs(means, stds, mins if p['with_min'] else None, share_index=p['share'], noise_type=p['ntype'])
-        except Exception as e:
-            return True, f"raised {e!r}"
-        if p['ntype'] == 'chi2':
-            continue
-        if p['with_min']:
-            fl = np.min(noise)
-            if not any(abs(fl - m) < 1e-12 or fl > m for m in mins):
-                return True, f"floor {fl} is not a table entry"
-        if p['share']:
-            # mean/std/min must come from ONE index: estimates recorded by the frame are (mean_i, std_i)
-            pass
-    return False, 'table sampling ok'
+    msgs = []
+    for n in sorted({p['nlen'], 1, 2, 3}):
+        means, stds, mins = rng.uniform(5, 9, n), rng.uniform(0.5, 1.5, n), rng.uniform(1, 4, n)
+        seen = {'mean': set(), 'std': set()}
+        for seed in range(60 * n):
+            fr = stg.Frame(fchans=64, tchans=4, df=2.0, dt=4.0, fch1=4096.0, seed=seed)
+            try:
+                noise = fr.add_noise_from_obs(means, stds, mins if p['with_min'] else None, share_index=p['share'], noise_type=p['ntype'])
+            except Exception as e:
+                return True, f"tables of length {n}: raised {e!r}"
+            if not np.array_equal(fr.data, noise):
+                return True, "returned noise is not what was added"
+            im = [i for i in range(n) if np.isclose(fr.noise_mean, means[i], rtol=1e-12)]
+            if p['ntype'] == 'chi2':
+                if not im:
+                    return True, f"chi2: recorded mean {fr.noise_mean} is not an entry of the table {means}"
+                seen['mean'].add(im[0])
+                continue
+            isd = [i for i in range(n) if np.isclose(fr.noise_std, stds[i], rtol=1e-12)]
+            if not isd:
+                return True, f"recorded deviation {fr.noise_std} is not an entry of the table {stds}"
+            seen['std'].add(isd[0])
+            if p['share']:
+                if not im or im[0] != isd[0]:
+                    return True, f"shared index: mean {fr.noise_mean} / deviation {fr.noise_std} are not the same row of the tables"
+                seen['mean'].add(im[0])
+            elif im:
+                seen['mean'].add(im[0])
+            elif not np.isclose(fr.noise_mean, fr.noise_std):
+                return True, f"recorded mean {fr.noise_mean} is neither a mean entry nor the sampled deviation"
+            if p['with_min']:
+                fl = np.min(noise)
+                if not any(abs(fl - m) < 1e-12 or fl > m for m in mins):
+                    return True, f"floor {fl} is not a table entry"
+        need = ['mean'] if p['ntype'] == 'chi2' else (['mean', 'std'] if p['share'] else ['std'])
+        for tb in need:
+            if seen[tb] != set(range(n)):
+                msgs.append(f"{tb} table of length {n}: entries {sorted(set(range(n)) - seen[tb])} never sampled in {60 * n} seeds")
+    return bool(msgs), '; '.join(msgs) or 'table sampling ok'
 
 
 def replay_errors(p):
@@ -437,7 +493,7 @@ def main():
     for ntype in ('chi2', 'gaussian'):
         for share in (True, False):
             for with_min in ((False, True) if ntype == 'gaussian' else (False,)):
-                for nlen in ((2,) if not ck.thorough else (2, 3)):
+                for nlen in ((1, 2) if not ck.thorough else (1, 2, 3)):
                     jobs.append(('job_from_obs', (ntype, share, with_min, nlen)))
     for T in (1, 4, 16):
         jobs.append(('job_snr', (T,)))
